@@ -5,6 +5,7 @@ import (
 	"go/ast"
 	"go/token"
 	"go/types"
+	"strings"
 )
 
 // Structural (engine-decided) checks: goroutine ledger etc. Filled in later.
@@ -18,6 +19,8 @@ func (e *Engine) RunStructural(names []string) *Unit {
 		switch n {
 		case "immutable-fields":
 			e.checkImmutableFields(u)
+		case "callers":
+			e.checkCallers(u)
 		default:
 			u.unsupported = append(u.unsupported, "unknown structural check "+n)
 		}
@@ -104,4 +107,77 @@ func (e *Engine) checkImmutableFields(u *Unit) {
 	// at least one obligation so that the check is never empty
 	u.kindN["immutable"]++
 	u.obls = append(u.obls, &Obligation{Name: fmt.Sprintf("structural#immutable.scan.%d", u.kindN["immutable"]), Unit: u.name, Kind: "immutable", Desc: fmt.Sprintf("scanned %d packages for writes to %d immutable fields", len(e.pkgs), len(e.specs.ImmutableFields)), Static: true, StaticOK: true, Status: "static"})
+}
+
+
+// checkCallers: `directive callers <Func> : A, B` in a package's contract file
+// states that the function/method named Func of that package is called only
+// from the functions A, B (by name, same package). One obligation per call site.
+func (e *Engine) checkCallers(u *Unit) {
+	for pkgPath, dirs := range e.specs.Directives {
+		p := e.pkgs[pkgPath]
+		if p == nil {
+			continue
+		}
+		for _, d := range dirs {
+			rest, ok := strings.CutPrefix(d, "callers ")
+			if !ok {
+				continue
+			}
+			target, list, ok := strings.Cut(rest, ":")
+			if !ok {
+				continue
+			}
+			target = strings.TrimSpace(target)
+			allowed := map[string]bool{}
+			for _, a := range strings.Split(list, ",") {
+				allowed[strings.TrimSpace(a)] = true
+			}
+			found := 0
+			for _, f := range p.Syntax {
+				for _, decl := range f.Decls {
+					fd, ok := decl.(*ast.FuncDecl)
+					if !ok || fd.Body == nil {
+						continue
+					}
+					ast.Inspect(fd.Body, func(x ast.Node) bool {
+						ce, ok := x.(*ast.CallExpr)
+						if !ok || calleeName(ce) != target {
+							return true
+						}
+						// must resolve to a function of this package
+						var obj types.Object
+						switch fx := ast.Unparen(ce.Fun).(type) {
+						case *ast.Ident:
+							obj = p.TypesInfo.Uses[fx]
+						case *ast.SelectorExpr:
+							if s := p.TypesInfo.Selections[fx]; s != nil {
+								obj = s.Obj()
+							} else {
+								obj = p.TypesInfo.Uses[fx.Sel]
+							}
+						}
+						if fn, ok := obj.(*types.Func); !ok || fn.Pkg() == nil || fn.Pkg().Path() != pkgPath {
+							return true
+						}
+						found++
+						u.kindN["callers"]++
+						okc := allowed[fd.Name.Name]
+						ob := &Obligation{Name: fmt.Sprintf("structural#callers.%s.%d", target, u.kindN["callers"]), Unit: u.name, Kind: "callers", Pos: u.pos(ce.Pos()),
+							Desc: fmt.Sprintf("%s is called only from {%s} (here: %s)", target, strings.TrimSpace(list), fd.Name.Name), Static: true, StaticOK: okc}
+						if okc {
+							ob.Status = "static"
+						} else {
+							ob.Status = "failed-static"
+						}
+						u.obls = append(u.obls, ob)
+						return true
+					})
+				}
+			}
+			if found == 0 {
+				u.stale = append(u.stale, "callers directive: no call of "+target+" found in "+pkgPath)
+			}
+		}
+	}
 }
